@@ -232,6 +232,20 @@ def make_builtins(it):
     @reg("sorted")
     def _sorted(xs, key=None, reverse=False):
         items = it.iterate(xs)
+        if getattr(key, "cmpfn", None) is not None:
+            # sorted(key=functools.cmp_to_key(cmp)): K(x) < K(y) <=> cmp(x, y) < 0; stable insertion sort
+            # (any stable comparison sort gives this result when cmp is a consistent total preorder)
+            out2: list = []
+            for x in items:
+                pos = len(out2)
+                for j in range(len(out2)):
+                    if it.truth(it.cmp("<", it.call(key.cmpfn, [x, out2[j]], {}), 0)):
+                        pos = j
+                        break
+                out2.insert(pos, x)
+            if reverse:
+                out2.reverse()
+            return out2
         ks = [it.call(key, [x], {}) if key else x for x in items]
         if any(is_symbolic(k) or isinstance(k, SObj) for k in ks):
             # insertion sort with forking comparisons (stable)
@@ -544,6 +558,12 @@ def external(it, qual: str):
                     return memo[key]
                 return Builtin(f"cached:{getattr(f, 'qualname', name)}", call)
             return Builtin(name, cache)
+        if name == "cmp_to_key":
+            def cmp_to_key(f):
+                k = Builtin("cmp_to_key-key", lambda x: (_ for _ in ()).throw(Unsupported("cmp_to_key key object used outside sorted()")))
+                k.cmpfn = f
+                return k
+            return Builtin("cmp_to_key", cmp_to_key)
         if name in ("cached_property", "wraps", "total_ordering"):
             return Builtin(name, lambda f=None, **k: f)
         if name == "reduce":
